@@ -169,6 +169,23 @@ TraceNeg(e, k) ==
           ELSE TRUE
     /\ st' = st
 
+\* common.ProcessSlots on a COPY of the live state for a target slot that is not after the state's slot:
+\* process_slots asserts state.slot < slot, so the call must return an error and leave the state as it was.
+TraceSlotsNeg(e, k) ==
+    /\ e.ev = "SlotsNeg"
+    /\ IF ~WellFormed(st) THEN PrintT(<<"NOTJUDGED", k, "SlotsNeg">>)
+       ELSE IF ProcessSlotsDefined(st, e.to) THEN PrintT(<<"NOTJUDGED", k, "SlotsNeg">>)     \* not a negative call
+       ELSE IF "panic" \in DOMAIN e
+         THEN PrintT(<<"MISMATCH", k, "Panic">>) /\ PrintT(<<"DIFF", k, "ProcessSlots", e.to, e.panic>>)
+       ELSE IF e.ok
+         THEN PrintT(<<"MISMATCH", k, "SlotsNeg">>)
+              /\ PrintT(<<"DIFF", k, "ProcessSlots accepted a target slot that is not after the state's slot", st.slot, e.to>>)
+       ELSE IF e.post # st
+         THEN PrintT(<<"MISMATCH", k, "SlotsNeg">>)
+              /\ PrintT(<<"DIFF", k, "the refused ProcessSlots call changed the state", DiffFields(st, e.post)>>)
+       ELSE TRUE
+    /\ st' = st
+
 \* zrnt panicked outside a recorded call, while the harness advanced a pre-state / computed a state root / derived
 \* the oracle with zrnt's own code on a history the model considers valid: always a deviation (the event carries
 \* the scenario, the slot of the last recorded event, the frame the panic was raised in and the stack).
@@ -180,7 +197,7 @@ TraceCrash(e, k) ==
 
 Next ==
     /\ l < Len(Trace)
-    /\ LET e == Trace[l + 1] IN TraceInit(e, l + 1) \/ TraceSlots(e, l + 1) \/ TraceProbe(e, l + 1) \/ TraceBlock(e, l + 1) \/ TraceNeg(e, l + 1) \/ TraceCrash(e, l + 1)
+    /\ LET e == Trace[l + 1] IN TraceInit(e, l + 1) \/ TraceSlots(e, l + 1) \/ TraceProbe(e, l + 1) \/ TraceBlock(e, l + 1) \/ TraceNeg(e, l + 1) \/ TraceCrash(e, l + 1) \/ TraceSlotsNeg(e, l + 1)
     /\ l' = l + 1
 
 Spec == Init /\ [][Next]_vars
